@@ -313,6 +313,7 @@ func (px *pathCtx) check(c value, kind, label string) bool {
 		// concretely false on a feasible path: get a model of the path.
 		r := px.sol.checkSat("")
 		if r == "unsat" {
+			px.res.obligs--
 			panic(killPath{"infeasible path at failed assertion"})
 		}
 		px.violation(kind, label, "assertion is concretely false on this path", r == "sat")
